@@ -248,14 +248,24 @@ structure Scenario where
 
 def isNameStart (c : Char) : Bool := (65 ≤ c.toNat && c.toNat ≤ 90) || (97 ≤ c.toNat && c.toNat ≤ 122) || c == '_'
 
-/-- `expand_text` on the expression, for the forms the harness writes: `$name` and `${name}` -/
+/-- what `$name` contributes to the text of the expression (`expand_text`; no field splitting there): a
+    scalar as it is, the elements of an array joined by the first character of IFS (a blank: the
+    scenarios never change IFS); `none` = no such value -/
+def textOf (st : Store) (name : Name) : Option (List Char) :=
+  match visible st.ctxs name with
+  | some ⟨.scalar s, _⟩ => some s
+  | some ⟨.array l, _⟩ => some ((l.intersperse [' ']).flatten)
+  | _ => none
+
+/-- `expand_text` on the expression, for the forms the harness writes: `$name` and `${name}`;
+    `none` = the expansion of an unset variable under `set -u` -/
 def substText (st : Store) : Nat → List Char → Option (List Char)
   | 0, _ => none
   | _, [] => some []
   | f + 1, '$' :: '{' :: rest =>
     let name := rest.takeWhile (· ≠ '}')
     let after := (rest.dropWhile (· ≠ '}')).drop 1
-    match getScalar st name with
+    match textOf st name with
     | some v => (substText st f after).map (v ++ ·)
     | none => if st.nounset then none else substText st f after
   | f + 1, '$' :: rest =>
@@ -263,7 +273,7 @@ def substText (st : Store) : Nat → List Char → Option (List Char)
     let after := rest.dropWhile isTermChar
     if name.isEmpty then (substText st f rest).map ('$' :: ·)
     else
-      match getScalar st name with
+      match textOf st name with
       | some v => (substText st f after).map (v ++ ·)
       | none => if st.nounset then none else substText st f after
   | f + 1, c :: rest => (substText st f rest).map (c :: ·)
